@@ -402,7 +402,14 @@ class Compiler:
             return False, None
 
         for ctx_start, ctx_end, file_format, filepath, *arguments in self.emitted_files:
-            result = file_formats[file_format](base, code, *arguments)
+            try:
+                result = file_formats[file_format](base, code, *arguments)
+            except ValueError as ex:
+                reports.error(
+                    "value-out-of-bounds",
+                    (ctx_start, ctx_end, f"Could not produce '{filepath}':\n{ex}")
+                )
+                continue
             try:
                 with open_device(filepath, "wb") as f:
                     f.write(result)
